@@ -4,7 +4,7 @@
     rates and events the importer reads off the graph for a window are those of the record. *)
 From Coq Require Import ZArith Reals List Bool Arith Lra Lia.
 From Dadi Require Import Base.Num Base.NumR Model.DemesFront Model.DemesExportModel Proofs.DemesBase Proofs.DemesRescale
-     Proofs.DemesUnits Proofs.DemesOrder Proofs.DemesExportLists.
+     Proofs.DemesUnits Proofs.DemesOrder Proofs.DemesExportLists Model.DemesExportReorderModel.
 Import ListNotations.
 Local Open Scope R_scope.
 
@@ -79,6 +79,19 @@ Fixpoint scan_end (next : nat) (ids : list nat) (l : list (round R * R)) : nat *
   | rb :: l' => scan_end (ev_next next ids (r_ev (fst rb))) (ev_ids next ids (r_ev (fst rb))) l'
   end.
 Definition lok (d : nat) (l : list (round R * R)) : Prop := rounds_ok d (map fst l).
+Definition lokr (d : nat) (l : list (round R * R)) : Prop := rounds_okr d (map fst l).
+Lemma ev_ok_okr d (e : sev R) : ev_ok d e -> ev_okr d e.
+Proof. destruct e; cbn; auto; try tauto. Qed.
+Lemma round_ok_okr d (r : round R) : round_ok d r -> round_okr d r.
+Proof. intros (K & K'). split; auto. now apply ev_ok_okr. Qed.
+Lemma rounds_ok_okr rs : forall d, rounds_ok d rs -> rounds_okr d rs.
+Proof. induction rs as [|r rs IH]; intros d; cbn; auto. intros [K1 K2]. split; [now apply round_ok_okr|auto]. Qed.
+Lemma lok_lokr d l : lok d l -> lokr d l.
+Proof. apply rounds_ok_okr. Qed.
+(** names: distinct and already created *)
+Definition okids (ids : list nat) (n : nat) : Prop := NoDup ids /\ forall x, In x ids -> (x < n)%nat.
+Lemma asc_okids ids n : asc 0 ids n -> okids ids n.
+Proof. intros A. split; [eapply asc_NoDup; eauto|]. intros x Hx. apply (asc_In _ _ _ _ A Hx). Qed.
 Fixpoint tchain (top : R) (l : list (round R * R)) : Prop :=
   match l with [] => True | rb :: l' => top = snd rb + r_T (fst rb) /\ tchain (snd rb) l' end.
 
@@ -90,7 +103,7 @@ Proof. induction rs; cbn; auto. Qed.
 Lemma T_pos (T : R) : (n0 <? T)%num = true -> 0 < T.
 Proof. unfold nltb. numR. intros K. apply negb_true_iff in K. now apply Rleb_false in K. Qed.
 
-Lemma scan_chain l : forall top next ids d, tchain top l -> lok d l -> achain (Fin top) (scan next ids l).
+Lemma scan_chain l : forall top next ids d, tchain top l -> lokr d l -> achain (Fin top) (scan next ids l).
 Proof.
   induction l as [|[r b] l IH]; intros top next ids d C K; [exact I|]. destruct C as [C1 C2]. destruct K as [K1 K2].
   cbn [fst snd] in *. cbn [scan achain]. unfold a_of, b_of. cbn [annotate ar_stage sg_a sg_b fst snd ar_next sg_ids]. numR.
@@ -116,7 +129,67 @@ Proof.
   - now apply asc_remove.
   - destruct K.
 Qed.
-Lemma ev_ids_sub next ids (e : sev R) x : ev_ok (length ids) e -> In x (ev_ids next ids e) ->
+  Lemma NoDup_app' {A} (l1 l2 : list A) : NoDup l1 -> NoDup l2 -> (forall x, In x l1 -> ~ In x l2) -> NoDup (l1 ++ l2).
+  Proof.
+    induction l1 as [|x l1 IH]; intros N1 N2 D; auto. inversion N1; subst. cbn. constructor.
+    - intros K. apply in_app_or in K as [K|K]; auto. apply (D x); auto. now left.
+    - apply IH; auto. intros y Hy. apply D. now right.
+  Qed.
+  Lemma NoDup_flat_map {A B} (f : A -> list B) l : NoDup l -> (forall x, In x l -> NoDup (f x)) ->
+    (forall x y z, In x l -> In y l -> In z (f x) -> In z (f y) -> x = y) -> NoDup (flat_map f l).
+  Proof.
+    induction l as [|x l IH]; intros N K D; [constructor|]. inversion N; subst. cbn. apply NoDup_app'.
+    - apply K. now left.
+    - apply IH; auto. + intros; apply K; now right. + intros x' y' z Hx' Hy'. apply D; now right.
+    - intros z Hz Hz'. apply in_flat_map in Hz' as (y & Hy & Hz'). assert (x = y) by (eapply D; eauto; [now left|now right]).
+      subst. contradiction.
+  Qed.
+
+Lemma perm1_spec ord d : is_perm1 ord d = true -> length ord = d /\ NoDup ord /\ forall k, In k ord <-> (1 <= k <= d)%nat.
+Proof.
+  unfold is_perm1. intros K. apply andb_prop in K as [K1 K2]. apply Nat.eqb_eq in K1. rewrite forallb_forall in K2.
+  assert (I1 : incl (seq 1 d) ord) by (intros k Hk; apply mem_In; auto).
+  assert (Ll : (length ord <= length (seq 1 d))%nat) by (rewrite seq_length; lia).
+  pose proof (NoDup_incl_NoDup (seq_NoDup d 1) Ll I1) as N.
+  pose proof (NoDup_length_incl (seq_NoDup d 1) Ll I1) as I2.
+  split; [auto|split; [auto|]]. intros k. split; intros Hk.
+  - apply I2 in Hk. apply in_seq in Hk. lia.
+  - apply I1. apply in_seq. lia.
+Qed.
+Lemma NoDup_map_inj_in {A B} (f : A -> B) l : (forall x y, In x l -> In y l -> f x = f y -> x = y) -> NoDup l -> NoDup (map f l).
+Proof.
+  induction l as [|a l IH]; intros Inj N; [constructor|]. inversion N as [|? ? N1 N2]; subst. cbn. constructor.
+  - intros K. apply in_map_iff in K as (y & E & Hy). assert (y = a) by (apply Inj; auto; [now right|now left]). subst. contradiction.
+  - apply IH; auto. intros x y Hx Hy. apply Inj; now right.
+Qed.
+Lemma reorder_ids_spec ids ord : is_perm1 ord (length ids) = true -> NoDup ids ->
+  let ids' := map (fun k => nth1 k ids) ord in
+  length ids' = length ids /\ NoDup ids' /\ forall x, In x ids' <-> In x ids.
+Proof.
+  intros P N. destruct (perm1_spec _ _ P) as (L & ND & Sp). cbv zeta. split; [now rewrite map_length|]. split.
+  - apply NoDup_map_inj_in; auto. intros x y Hx Hy E. apply Sp in Hx, Hy. unfold nth1 in E.
+    rewrite (NoDup_nth ids 0%nat) in N. apply N in E; lia.
+  - intros x. split; intros Hx.
+    + apply in_map_iff in Hx as (k & <- & Hk). apply Sp in Hk. apply nth_In. lia.
+    + destruct (In_nth _ _ 0%nat Hx) as (j & Lj & <-). apply in_map_iff. exists (S j). split; [unfold nth1; f_equal; lia|]. apply Sp. lia.
+Qed.
+
+Lemma ev_ids_okids next ids (e : sev R) : okids ids next -> ev_okr (length ids) e -> okids (ev_ids next ids e) (ev_next next ids e).
+Proof.
+  intros [N B] K. destruct e; cbn [ev_ids ev_next ev_okr ev_ok] in *.
+  - split; [apply seq_NoDup|]. intros x Hx. apply in_seq in Hx. lia.
+  - split.
+    + apply NoDup_app'; auto; [repeat constructor; intros []|]. intros x Hx [<-|[]]. apply B in Hx. lia.
+    + intros x Hx. apply in_app_or in Hx as [Hx|[<-|[]]]; [apply B in Hx|]; lia.
+  - split; auto.
+  - split.
+    + clear B K. revert N. generalize (k - 1)%nat. induction ids as [|y l IH]; intros j N; destruct j; cbn; auto; inversion N; subst; auto.
+      constructor; auto. intros Hy. apply remove_nth_In in Hy. contradiction.
+    + intros x Hx. apply B. eapply remove_nth_In; eauto.
+  - destruct (reorder_ids_spec ids ord K N) as (_ & N' & Sp). split; auto. intros x Hx. apply B. now apply Sp.
+Qed.
+
+Lemma ev_ids_sub next ids (e : sev R) x : ev_okr (length ids) e -> In x (ev_ids next ids e) ->
   In x ids \/ (next <= x < ev_next next ids e)%nat.
 Proof.
   intros K Hx. destruct e; cbn [ev_ids ev_next] in *.
@@ -124,7 +197,8 @@ Proof.
   - apply in_app_or in Hx as [Hx|[<-|[]]]; [auto|right; lia].
   - auto.
   - left. eapply remove_nth_In; eauto.
-  - destruct K.
+  - left. apply in_map_iff in Hx as (k & <- & Hk). cbn [ev_okr] in K. destruct (perm1_spec _ _ K) as (_ & _ & Sp).
+    apply Sp in Hk. apply nth_In. lia.
 Qed.
 Lemma ev_ids_new next ids (e : sev R) x : (next <= x < ev_next next ids e)%nat -> In x (ev_ids next ids e).
 Proof.
@@ -132,14 +206,14 @@ Proof.
   - apply in_seq. lia.
   - apply in_or_app. right. left. lia.
 Qed.
-Lemma ev_ids_len next ids (e : sev R) : ev_ok (length ids) e -> length (ev_ids next ids e) = ev_dim (length ids) e.
+Lemma ev_ids_len next ids (e : sev R) : ev_okr (length ids) e -> length (ev_ids next ids e) = ev_dim (length ids) e.
 Proof.
   intros K. destruct e; cbn [ev_ids ev_dim].
   - apply seq_length.
   - rewrite app_length. cbn. lia.
   - reflexivity.
   - destruct K as [K1 K2]. apply remove_nth_length. lia.
-  - destruct K.
+  - rewrite map_length. cbn [ev_okr] in K. now destruct (perm1_spec _ _ K).
 Qed.
 Lemma ev_births_len now next ids (e : sev R) : length (ev_births now ids e) = (ev_next next ids e - next)%nat.
 Proof. destruct e; cbn [ev_births ev_next length]; try lia. rewrite map_length. lia. Qed.
@@ -147,7 +221,7 @@ Lemma ev_births_start now ids (e : sev R) : Forall (fun b => b_start b = Fin now
 Proof. destruct e; cbn; auto. apply Forall_forall. intros b Hb. apply in_map_iff in Hb as (p & <- & _). reflexivity. Qed.
 Lemma nz_idx_lt (props : list R) i : In i (nz_idx props) -> (i < length props)%nat.
 Proof. unfold nz_idx. intros K. apply filter_In in K as [K _]. apply in_seq in K. lia. Qed.
-Lemma ev_births_anc now ids (e : sev R) : ev_ok (length ids) e ->
+Lemma ev_births_anc now ids (e : sev R) : ev_okr (length ids) e ->
   Forall (fun b => forall x, In x (b_anc b) -> In x ids) (ev_births now ids e).
 Proof.
   intros K. destruct e; cbn; auto.
@@ -163,7 +237,7 @@ Lemma annotate_next next ids rb : ar_next (annotate next ids rb) = ev_next next 
 Proof. reflexivity. Qed.
 
 (** a name that is not alive any more never comes back, and is nobody's ancestor later *)
-Lemma scan_dead l : forall next ids d id, asc 0 ids next -> length ids = d -> lok d l -> (id < next)%nat -> ~ In id ids ->
+Lemma scan_dead l : forall next ids d id, okids ids next -> length ids = d -> lokr d l -> (id < next)%nat -> ~ In id ids ->
   Forall (fun ar => inA id ar = false /\ Forall (fun b => ~ In id (b_anc b)) (ar_births ar)) (scan next ids l).
 Proof.
   induction l as [|rb l IH]; intros next ids d id A L K Hlt Hni; [constructor|]. destruct K as [K1 K2]. cbn [map fst] in *.
@@ -176,16 +250,16 @@ Proof.
     pose proof (ev_births_anc (snd rb + r_T (fst rb))%num ids _ Kev) as B. eapply Forall_impl; [|exact B].
     cbn beta. intros b Hb Hx. apply Hni. auto.
   - pose proof (ev_next_ge next ids (r_ev (fst rb))).
-    apply (IH _ _ _ id (ev_ids_asc next ids _ A Kev) (ev_ids_len next ids _ Kev) K2); [lia|exact Hni'].
+    apply (IH _ _ _ id (ev_ids_okids next ids _ A Kev) (ev_ids_len next ids _ Kev) K2); [lia|exact Hni'].
 Qed.
 
 (** a name that is alive stays for a while, then is gone for ever *)
-Lemma scan_alive l : forall next ids d id, asc 0 ids next -> length ids = d -> lok d l -> In id ids ->
+Lemma scan_alive l : forall next ids d id, okids ids next -> length ids = d -> lokr d l -> In id ids ->
   exists A2 A3, scan next ids l = A2 ++ A3 /\ Forall (fun ar => inA id ar = true) A2 /\ Forall (fun ar => inA id ar = false) A3.
 Proof.
   induction l as [|rb l IH]; intros next ids d id A L K Hin; [exists [], []; repeat split; constructor|].
   pose proof K as K0. destruct K as [K1 K2]. cbn [map fst] in *. destruct K1 as (Kev & K1). subst d.
-  pose proof (ev_ids_asc next ids _ A Kev) as A'. pose proof (ev_ids_len next ids _ Kev) as L'.
+  pose proof (ev_ids_okids next ids _ A Kev) as A'. pose proof (ev_ids_len next ids _ Kev) as L'.
   cbn [scan]. rewrite annotate_next. change (sg_ids (ar_stage (annotate next ids rb))) with (ev_ids next ids (r_ev (fst rb))).
   destruct (mem id (ev_ids next ids (r_ev (fst rb)))) eqn:E.
   - apply mem_In in E. destruct (IH _ _ _ id A' L' K2 E) as (A2 & A3 & E1 & F2 & F3).
@@ -193,7 +267,7 @@ Proof.
     unfold inA. rewrite annotate_ids. now apply mem_In.
   - exists [], (annotate next ids rb :: scan (ev_next next ids (r_ev (fst rb))) (ev_ids next ids (r_ev (fst rb))) l).
     split; [reflexivity|]. split; [constructor|]. constructor; [exact E|].
-    apply mem_false in E. pose proof (asc_In _ _ _ _ A Hin) as B. pose proof (ev_next_ge next ids (r_ev (fst rb))).
+    apply mem_false in E. pose proof (proj2 A _ Hin) as B. pose proof (ev_next_ge next ids (r_ev (fst rb))).
     eapply Forall_impl; [|eapply (scan_dead l _ _ _ id A' L' K2); [lia|exact E]]. cbn beta. tauto.
 Qed.
 
@@ -213,13 +287,13 @@ Proof.
   specialize (G l (ev_next next ids (r_ev (fst rb))) (ev_ids next ids (r_ev (fst rb)))). lia.
 Qed.
 
-Lemma scan_born l : forall next ids d id, asc 0 ids next -> length ids = d -> lok d l ->
+Lemma scan_born l : forall next ids d id, okids ids next -> length ids = d -> lokr d l ->
   (next <= id < fst (scan_end next ids l))%nat ->
   life (scan next ids l) id (b_start (nth (id - next) (flat_map (@ar_births R) (scan next ids l)) dbirth)).
 Proof.
   induction l as [|rb l IH]; intros next ids d id A L K Hid; [cbn in Hid; lia|].
   destruct K as [K1 K2]. cbn [map fst] in *. destruct K1 as (Kev & K1). subst d.
-  pose proof (ev_ids_asc next ids _ A Kev) as A'. pose proof (ev_ids_len next ids _ Kev) as L'.
+  pose proof (ev_ids_okids next ids _ A Kev) as A'. pose proof (ev_ids_len next ids _ Kev) as L'.
   pose proof (ev_next_ge next ids (r_ev (fst rb))) as Hge.
   cbn [scan scan_end flat_map] in *. rewrite annotate_next.
   change (sg_ids (ar_stage (annotate next ids rb))) with (ev_ids next ids (r_ev (fst rb))).
@@ -236,7 +310,7 @@ Proof.
       change (id - next < length (ar_births (annotate next ids rb)))%nat. lia.
   - apply Nat.ltb_ge in E. destruct (IH next' ids' _ id A' L' K2) as (A1 & A2 & A3 & E1 & N2 & F1 & F2 & F3 & Es); [lia|].
     exists (annotate next ids rb :: A1), A2, A3. rewrite E1. repeat split; auto.
-    + constructor; auto. unfold inA. rewrite annotate_ids. apply mem_false. intros Hx. apply (asc_In _ _ _ _ A') in Hx. lia.
+    + constructor; auto. unfold inA. rewrite annotate_ids. apply mem_false. intros Hx. apply (proj2 A') in Hx. lia.
     + rewrite app_nth2 by lia. rewrite Lb. replace (id - next - (next' - next))%nat with (id - next')%nat by lia.
       rewrite <- E1. exact Es.
 Qed.
@@ -249,7 +323,8 @@ Lemma log_life lg id : log_ok lg -> (id < n_demes lg)%nat ->
   life (annotated lg) id (b_start (nth id (births_of (annotated lg)) dbirth)).
 Proof.
   intros K Hid. unfold n_demes, births_of, annotated in *. cbn [flat_map init_ar ar_births app length] in *.
-  assert (A : asc 0 [0%nat] 1) by (cbn; lia). assert (K' : lok 1 (timed (l_rounds lg))) by (unfold lok; now rewrite timed_fst).
+  assert (A : okids [0%nat] 1) by (apply asc_okids; cbn; lia).
+  assert (K' : lokr 1 (timed (l_rounds lg))) by (apply lok_lokr; unfold lok; now rewrite timed_fst).
   destruct id as [|id].
   - destruct (scan_alive (timed (l_rounds lg)) 1 [0%nat] 1 0%nat A eq_refl K') as (A2 & A3 & E1 & F2 & F3); [now left|].
     exists [], (init_ar lg :: A2), A3. rewrite E1. repeat split; auto; try discriminate.
@@ -262,7 +337,7 @@ Qed.
 Lemma log_chain lg : log_ok lg -> achain Inf (annotated lg).
 Proof.
   intros K. unfold annotated. cbn [achain]. split; [reflexivity|]. split; [reflexivity|].
-  unfold b_of. cbn [init_ar ar_stage sg_b]. eapply scan_chain; [apply timed_chain|]. unfold lok. rewrite timed_fst. exact K.
+  unfold b_of. cbn [init_ar ar_stage sg_b]. eapply scan_chain; [apply timed_chain|]. apply lok_lokr. unfold lok. rewrite timed_fst. exact K.
 Qed.
 
 (** ** order of two records of a chain *)
@@ -325,6 +400,17 @@ Proof.
   - apply Nat.eqb_neq in E. rewrite IH by (cbn in L; lia). replace (id - lo)%nat with (S (id - S lo)) by lia. reflexivity.
 Qed.
 
+Lemma srt_In n ids x : (forall y, In y ids -> (y < n)%nat) -> (In x (srt n ids) <-> In x ids).
+Proof.
+  intros B. unfold srt. rewrite filter_In, in_seq. split.
+  - intros [_ M]. now apply mem_In.
+  - intros Hx. split; [apply B in Hx; lia|now apply mem_In].
+Qed.
+Lemma srt_asc n ids : asc 0 ids n -> srt n ids = ids.
+Proof. intros A. pose proof (filter_mem_seq _ _ _ A) as E. now rewrite Nat.sub_0_r in E. Qed.
+Lemma srt_NoDup n ids : NoDup (srt n ids).
+Proof. unfold srt. apply NoDup_filter. apply seq_NoDup. Qed.
+
 (** ** the graph of a chain of records in which every name has one contiguous life *)
 Section Raw.
   Variable ann : list (arnd R).
@@ -336,7 +422,7 @@ Section Raw.
   Hypothesis Hchain : achain top ann.
   Hypothesis Hlife : forall id, (id < n)%nat -> life ann id (b_start (nth id births dbirth)).
   Hypothesis Hstart : Forall (fun ar => Forall (fun b => b_start b = a_of ar) (ar_births ar)) ann.
-  Hypothesis Hids : Forall (fun ar => asc 0 (ids_of ar) n /\ ids_of ar <> []) ann.
+  Hypothesis Hids : Forall (fun ar => okids (ids_of ar) n /\ ids_of ar <> []) ann.
   Hypothesis Hpulse : Forall (fun ar => Forall (fun p => Fin (p_time p) = a_of ar) (ar_pulses ar)) ann.
   Hypothesis Hne : ann <> [].
 
@@ -425,15 +511,14 @@ Section Raw.
     unfold G, raw_graph_of. cbn [g_demes]. rewrite mk_demes_eq. apply (T ann top Hchain Hstart 0%nat).
   Qed.
 
-  Lemma present_raw ar : In ar ann -> present G (win ar) = ids_of ar.
+  Lemma present_srt ar : In ar ann -> present G (win ar) = srt n (ids_of ar).
   Proof.
     intros Har. unfold present, ordered_demes. rewrite (ordered_demes_sorted _ starts_desc).
     rewrite g_demes_raw, filter_map, map_map. cbn [deme_of mkd d_id fst]. rewrite map_id.
-    rewrite (filter_ext_in _ (fun id => mem id (ids_of ar))).
-    2:{ intros id Hid. apply in_seq in Hid. apply covers_raw; auto. lia. }
-    rewrite Forall_forall in Hids. destruct (Hids _ Har) as [A _].
-    pose proof (filter_mem_seq _ _ _ A) as E. now rewrite Nat.sub_0_r in E.
+    apply filter_ext_in. intros id Hid. apply in_seq in Hid. apply covers_raw; auto. lia.
   Qed.
+  Lemma present_raw ar : In ar ann -> asc 0 (ids_of ar) n -> present G (win ar) = ids_of ar.
+  Proof. intros Har A. rewrite present_srt by auto. now apply srt_asc. Qed.
 
   (** *** integration intervals *)
   Lemma stage_epoch_times id (sg : stage R) e : In e (stage_epoch id sg) -> e_start e = sg_a sg /\ e_end e = sg_b sg.
@@ -467,7 +552,7 @@ Section Raw.
     - assert (K : forall ar, In ar ann -> In (a_of ar) (break_points G) /\ In (Fin (b_of ar)) (break_points G)).
       { intros ar Har. rewrite Forall_forall in Hids. destruct (Hids _ Har) as [A N].
         destruct (ids_of ar) as [|id r] eqn:E; [congruence|]. assert (Hin : In id (ids_of ar)) by (rewrite E; now left).
-        rewrite <- E in A. pose proof (asc_In _ _ _ _ A Hin) as L.
+        rewrite <- E in A. pose proof (proj2 A _ Hin) as L.
         assert (He : In (the_epoch id (ar_stage ar)) (d_epochs (deme_of id))).
         { unfold deme_of, mkd. cbn [d_epochs fst]. unfold epochs_of. apply in_flat_map. exists (ar_stage ar).
           split; [unfold stages; now apply in_map|]. rewrite stage_epoch_in; [now left|]. now apply mem_In. }
@@ -489,8 +574,9 @@ Section Raw.
   Lemma used_intervals_raw : used_intervals G = map win ann.
   Proof.
     unfold used_intervals. rewrite intervals_raw. apply filter_all. intros iv Hiv. apply in_map_iff in Hiv as (ar & <- & Har).
-    rewrite present_raw by auto. rewrite Forall_forall in Hids. destruct (Hids _ Har) as [_ N].
-    destruct (ids_of ar); [congruence|reflexivity].
+    rewrite present_srt by auto. rewrite Forall_forall in Hids. destruct (Hids _ Har) as [[_ B] N].
+    destruct (ids_of ar) as [|x r] eqn:E; [congruence|].
+    assert (Hx : In x (srt n (x :: r))) by (apply srt_In; auto; now left). destruct (srt n (x :: r)); [destruct Hx|reflexivity].
   Qed.
 
   (** *** sizes *)
@@ -501,7 +587,7 @@ Section Raw.
     sizes_at_time (deme_of id) (win ar)
     = (e_s0 (the_epoch id (ar_stage ar)), e_s1 (the_epoch id (ar_stage ar)), e_fn (the_epoch id (ar_stage ar))).
   Proof.
-    intros Har Hin. rewrite Forall_forall in Hids. destruct (Hids _ Har) as [A _]. pose proof (asc_In _ _ _ _ A Hin) as L.
+    intros Har Hin. rewrite Forall_forall in Hids. destruct (Hids _ Har) as [A _]. pose proof (proj2 A _ Hin) as L.
     destruct (deme_life id) as (A1 & A2 & A3 & E & N2 & F1 & F2 & F3 & _ & Ee & _); [lia|].
     rewrite Forall_forall in F1, F2, F3. assert (M : inA id ar = true) by (apply mem_In; exact Hin).
     assert (H2 : In ar A2).
@@ -559,21 +645,6 @@ Section Raw.
   Qed.
 
   (** *** the migration arguments of the integration call *)
-  Lemma NoDup_app' {A} (l1 l2 : list A) : NoDup l1 -> NoDup l2 -> (forall x, In x l1 -> ~ In x l2) -> NoDup (l1 ++ l2).
-  Proof.
-    induction l1 as [|x l1 IH]; intros N1 N2 D; auto. inversion N1; subst. cbn. constructor.
-    - intros K. apply in_app_or in K as [K|K]; auto. apply (D x); auto. now left.
-    - apply IH; auto. intros y Hy. apply D. now right.
-  Qed.
-  Lemma NoDup_flat_map {A B} (f : A -> list B) l : NoDup l -> (forall x, In x l -> NoDup (f x)) ->
-    (forall x y z, In x l -> In y l -> In z (f x) -> In z (f y) -> x = y) -> NoDup (flat_map f l).
-  Proof.
-    induction l as [|x l IH]; intros N K D; [constructor|]. inversion N; subst. cbn. apply NoDup_app'.
-    - apply K. now left.
-    - apply IH; auto. + intros; apply K; now right. + intros x' y' z Hx' Hy'. apply D; now right.
-    - intros z Hz Hz'. apply in_flat_map in Hz' as (y & Hy & Hz'). assert (x = y) by (eapply D; eauto; [now left|now right]).
-      subst. contradiction.
-  Qed.
   Lemma offdiag_in d a b : In (a, b) (offdiag d) <-> (a < d /\ b < d /\ a <> b)%nat.
   Proof.
     unfold offdiag. rewrite in_flat_map. split.
@@ -598,7 +669,7 @@ Section Raw.
     map (fun ab => mig_rate G (nth (snd ab) (ids_of ar) 0%nat) (nth (fst ab) (ids_of ar) 0%nat) (win ar)) (offdiag (length (ids_of ar)))
     = sg_mig (ar_stage ar).
   Proof.
-    intros Har Lm. rewrite Forall_forall in Hids. destruct (Hids _ Har) as [A _]. pose proof (asc_NoDup _ _ _ A) as ND.
+    intros Har Lm. rewrite Forall_forall in Hids. destruct (Hids _ Har) as [A _]. pose proof (proj1 A) as ND.
     set (ids := ids_of ar) in *. set (od := offdiag (length ids)) in *. set (mg := sg_mig (ar_stage ar)) in *.
     apply nth_ext with (d := 0) (d' := 0); [now rewrite map_length|]. intros k Lk. rewrite map_length in Lk.
     rewrite (nth_indep _ _ (mig_rate G (nth (snd (0%nat, 0%nat)) ids 0%nat) (nth (fst (0%nat, 0%nat)) ids 0%nat) (win ar)))
@@ -631,18 +702,18 @@ Section Raw.
     map (fun id => match find_deme G id with Some d => sizes_at_time d (win ar) | None => (1, 1, SConstant) end) (ids_of ar)
     = sg_sizes (ar_stage ar).
   Proof.
-    intros Har Ls. pose proof Hids as Hids'. rewrite Forall_forall in Hids'. destruct (Hids' _ Har) as [A _]. pose proof (asc_NoDup _ _ _ A) as ND.
+    intros Har Ls. pose proof Hids as Hids'. rewrite Forall_forall in Hids'. destruct (Hids' _ Har) as [A _]. pose proof (proj1 A) as ND.
     apply nth_ext with (d := (1, 1, SConstant)) (d' := (1, 1, SConstant)); [now rewrite map_length|].
     intros i Li. rewrite map_length in Li.
     set (h := fun id => match find_deme G id with Some d => sizes_at_time d (win ar) | None => (1, 1, SConstant) end).
     rewrite (nth_indep _ _ (h 0%nat)) by (now rewrite map_length). rewrite (map_nth h). unfold h.
     assert (Hin : In (nth i (ids_of ar) 0%nat) (ids_of ar)) by now apply nth_In.
-    pose proof (asc_In _ _ _ _ A Hin) as L. rewrite find_deme_raw by lia. rewrite sizes_raw by auto.
+    pose proof (proj2 A _ Hin) as L. rewrite find_deme_raw by lia. rewrite sizes_raw by auto.
     unfold the_epoch. cbn [e_s0 e_s1 e_fn]. fold (ids_of ar). rewrite index_of_nth_NoDup by auto.
     destruct (nth i (sg_sizes (ar_stage ar)) (1, 1, SConstant)) as [[s0 s1] k]. reflexivity.
   Qed.
 
-  Lemma integ_raw ar : In ar ann -> (1 <= length (ids_of ar) <= 5)%nat ->
+  Lemma integ_raw ar : In ar ann -> asc 0 (ids_of ar) n -> (1 <= length (ids_of ar) <= 5)%nat ->
     length (sg_sizes (ar_stage ar)) = length (ids_of ar) ->
     length (sg_mig (ar_stage ar)) = length (offdiag (length (ids_of ar))) ->
     let stp := rawstep G (win ar) in
@@ -652,9 +723,9 @@ Section Raw.
     = [mkCall f (rawT (win ar)) (make_nu_func (sg_sizes (ar_stage ar)) (rawT (win ar)) 1) (sg_mig (ar_stage ar))
               (repeat false (length (ids_of ar))) [] (ids_of ar)].
   Proof.
-    intros Har Ld Ls Lm. cbv zeta. unfold rawstep. cbn [st_live st_iv st_T st_nus st_M st_fr].
-    rewrite (present_raw ar Har). rewrite (sizes_list_raw ar Har Ls). repeat split.
-    pose proof Hids as Hids'. rewrite Forall_forall in Hids'. destruct (Hids' _ Har) as [A _]. pose proof (asc_NoDup _ _ _ A) as ND.
+    intros Har Hasc Ld Ls Lm. cbv zeta. unfold rawstep. cbn [st_live st_iv st_T st_nus st_M st_fr].
+    rewrite (present_raw ar Har Hasc). rewrite (sizes_list_raw ar Har Ls). repeat split.
+    pose proof Hids as Hids'. rewrite Forall_forall in Hids'. destruct (Hids' _ Har) as [A _]. pose proof (proj1 A) as ND.
     set (ids := ids_of ar) in *.
     set (M := map (fun d_to => map (fun d_from => if Nat.eqb d_from d_to then 0 else mig_rate G d_from d_to (win ar)) ids) ids).
     set (nus := make_nu_func (sg_sizes (ar_stage ar)) (rawT (win ar)) 1).
@@ -672,6 +743,85 @@ Section Raw.
       destruct (Nat.eqb (nth b ids 0%nat) (nth a ids 0%nat)) eqn:E; auto. apply Nat.eqb_eq in E.
       rewrite (NoDup_nth ids 0%nat) in ND. apply ND in E; auto. lia.
     - generalize ids. intros l. induction l; cbn [map length repeat]; auto. f_equal; auto.
+  Qed.
+
+  (** the same with the demes in creation order, every argument looked up by name *)
+  Lemma srt_length ids0 : okids ids0 n -> length (srt n ids0) = length ids0.
+  Proof.
+    intros [N B]. apply Nat.le_antisymm; apply NoDup_incl_length; auto; try apply srt_NoDup; intros x Hx; apply (srt_In n ids0 x B); auto.
+  Qed.
+  Lemma pos_pair_nth ab l : In ab l -> (pos_pair ab l < length l)%nat /\ nth (pos_pair ab l) l (0%nat, 0%nat) = ab.
+  Proof.
+    induction l as [|x l IH]; intros Hin; [destruct Hin|]. cbn [pos_pair].
+    destruct (Nat.eqb (fst x) (fst ab) && Nat.eqb (snd x) (snd ab)) eqn:E.
+    - apply andb_prop in E as [E1 E2]. apply Nat.eqb_eq in E1, E2. split; [cbn; lia|]. cbn. destruct x, ab; cbn in *; congruence.
+    - destruct Hin as [->|Hin]; [rewrite !Nat.eqb_refl in E; discriminate|]. destruct (IH Hin) as [I1 I2]. split; [cbn; lia|exact I2].
+  Qed.
+  Lemma pos_of_nth ids0 x : In x ids0 -> (pos_of x ids0 < length ids0)%nat /\ nth (pos_of x ids0) ids0 0%nat = x.
+  Proof. intros Hx. destruct (index_of_In _ _ Hx) as [j Ej]. unfold pos_of. rewrite Ej. now apply index_of_Some. Qed.
+
+  Lemma mig_lookup_raw ar x y : In ar ann -> length (sg_mig (ar_stage ar)) = length (offdiag (length (ids_of ar))) ->
+    In x (ids_of ar) -> In y (ids_of ar) -> x <> y ->
+    mig_rate G y x (win ar)
+    = nth (pos_pair (pos_of x (ids_of ar), pos_of y (ids_of ar)) (offdiag (length (ids_of ar)))) (sg_mig (ar_stage ar)) 0.
+  Proof.
+    intros Har Lm Hx Hy Nxy. destruct (pos_of_nth _ _ Hx) as [Lx Ex]. destruct (pos_of_nth _ _ Hy) as [Ly Ey].
+    set (a := pos_of x (ids_of ar)) in *. set (b := pos_of y (ids_of ar)) in *.
+    assert (Iab : In (a, b) (offdiag (length (ids_of ar)))) by (apply offdiag_in; repeat split; auto; intros K; apply Nxy; congruence).
+    destruct (pos_pair_nth _ _ Iab) as [Lk Ek]. set (k := pos_pair (a, b) (offdiag (length (ids_of ar)))) in *.
+    rewrite <- (mig_list_raw ar Har Lm).
+    rewrite (nth_indep _ _ (mig_rate G (nth (snd (0%nat, 0%nat)) (ids_of ar) 0%nat) (nth (fst (0%nat, 0%nat)) (ids_of ar) 0%nat) (win ar)))
+      by (now rewrite map_length).
+    rewrite (map_nth (fun ab => mig_rate G (nth (snd ab) (ids_of ar) 0%nat) (nth (fst ab) (ids_of ar) 0%nat) (win ar))).
+    rewrite Ek. cbn [fst snd]. now rewrite Ex, Ey.
+  Qed.
+
+  Lemma integ_srt ar : In ar ann -> (1 <= length (ids_of ar) <= 5)%nat ->
+    length (sg_sizes (ar_stage ar)) = length (ids_of ar) ->
+    length (sg_mig (ar_stage ar)) = length (offdiag (length (ids_of ar))) ->
+    let stp := rawstep G (win ar) in
+    let ids := ids_of ar in
+    let L := srt n ids in
+    st_live stp = L /\ st_iv stp = win ar /\ st_T stp = rawT (win ar) /\
+    exists f, int_fname (length ids) = Some f /\
+    integ_calls std_wirings L (st_T stp) (st_nus stp) (st_M stp) (st_fr stp)
+    = [mkCall f (rawT (win ar))
+              (make_nu_func (map (fun x => nth (pos_of x ids) (sg_sizes (ar_stage ar)) (1, 1, SConstant)) L) (rawT (win ar)) 1)
+              (map (fun ab => nth (pos_pair (pos_of (nth (fst ab) L 0%nat) ids, pos_of (nth (snd ab) L 0%nat) ids) (offdiag (length ids)))
+                              (sg_mig (ar_stage ar)) 0) (offdiag (length ids)))
+              (repeat false (length ids)) [] L].
+  Proof.
+    intros Har Ld Ls Lm. cbv zeta. unfold rawstep. cbn [st_live st_iv st_T st_nus st_M st_fr].
+    rewrite (present_srt ar Har). repeat split.
+    pose proof Hids as Hids'. rewrite Forall_forall in Hids'. destruct (Hids' _ Har) as [A _].
+    set (ids := ids_of ar) in *. set (L := srt n ids).
+    assert (LL : length L = length ids) by (apply srt_length; exact A).
+    assert (InL : forall x, In x L -> In x ids) by (intros x Hx; apply (srt_In n ids x (proj2 A)); exact Hx).
+    pose proof (srt_NoDup n ids) as NL. fold L in NL.
+    assert (Esz : map (fun id => match find_deme G id with Some d => sizes_at_time d (win ar) | None => (1, 1, SConstant) end) L
+                  = map (fun x => nth (pos_of x ids) (sg_sizes (ar_stage ar)) (1, 1, SConstant)) L).
+    { apply map_ext_in. intros id Hid. pose proof (InL _ Hid) as Hin. pose proof (proj2 A _ Hin) as Lid.
+      rewrite find_deme_raw by lia. rewrite sizes_raw by auto. unfold the_epoch, pos_of. cbn [e_s0 e_s1 e_fn]. fold (ids_of ar). fold ids.
+      destruct (nth (match index_of id ids with Some j => j | None => 0%nat end) (sg_sizes (ar_stage ar)) (1, 1, SConstant)) as [[s0 s1] k]. reflexivity. }
+    rewrite Esz.
+    set (M := map (fun d_to => map (fun d_from => if Nat.eqb d_from d_to then 0 else mig_rate G d_from d_to (win ar)) L) L).
+    set (nus := make_nu_func (map (fun x => nth (pos_of x ids) (sg_sizes (ar_stage ar)) (1, 1, SConstant)) L) (rawT (win ar)) 1).
+    assert (Lnus : length nus = length L).
+    { unfold nus, make_nu_func. destruct (forallb _ _); now rewrite !map_length. }
+    assert (Ld' : (1 <= length L <= 5)%nat) by (rewrite LL; exact Ld).
+    destruct (integ_call_wired L (rawT (win ar)) nus M (map (fun id => mem id []) L) Ld' Lnus (map_length _ _)) as (f & Ef & Ec).
+    rewrite LL in Ef. exists f. split; auto. rewrite Ec. rewrite LL. f_equal. f_equal.
+    - apply map_ext_in. intros [a b] Iab. apply offdiag_in in Iab as (La & Lb & Nab). cbn [fst snd]. unfold M.
+      rewrite <- LL in La, Lb.
+      rewrite (nth_indep _ _ ((fun d_to => map (fun d_from => if Nat.eqb d_from d_to then 0 else mig_rate G d_from d_to (win ar)) L) 0%nat))
+        by (now rewrite map_length).
+      rewrite (map_nth (fun d_to => map (fun d_from => if Nat.eqb d_from d_to then 0 else mig_rate G d_from d_to (win ar)) L)).
+      set (g := fun d_from => if Nat.eqb d_from (nth a L 0%nat) then 0 else mig_rate G d_from (nth a L 0%nat) (win ar)).
+      rewrite (nth_indep _ _ (g 0%nat)) by (now rewrite map_length). rewrite (map_nth g). unfold g.
+      destruct (Nat.eqb (nth b L 0%nat) (nth a L 0%nat)) eqn:E.
+      + apply Nat.eqb_eq in E. rewrite (NoDup_nth L 0%nat) in NL. apply NL in E; auto. lia.
+      + apply Nat.eqb_neq in E. apply mig_lookup_raw; auto; apply InL, nth_In; auto.
+    - rewrite <- LL. generalize L. intros l. induction l; cbn [map length repeat]; auto. f_equal; auto.
   Qed.
 
   (** *** the events at the end of a window *)
@@ -730,7 +880,7 @@ Section Raw.
   (** every record is the annotation of its round, given the names of the previous record; a name that has gone is
       nobody's ancestor afterwards *)
   Hypothesis Hstep : forall P ar nx Q, ann = P ++ ar :: nx :: Q ->
-    exists next rb, nx = annotate next (ids_of ar) rb /\ asc 0 (ids_of ar) next /\ round_ok (length (ids_of ar)) (fst rb).
+    exists next rb, nx = annotate next (ids_of ar) rb /\ okids (ids_of ar) next /\ round_okr (length (ids_of ar)) (fst rb).
   Hypothesis Hgone : forall P ar nx Q id, ann = P ++ ar :: nx :: Q -> In id (ids_of ar) -> ~ In id (ids_of nx) ->
     Forall (fun y => Forall (fun b => ~ In id (b_anc b)) (ar_births y)) Q.
 
@@ -779,7 +929,7 @@ Section Raw.
     = marg_one ar Q id.
   Proof.
     intros E L d. unfold marg_one. assert (Har : In ar ann) by (rewrite E; apply in_or_app; right; now left).
-    pose proof Hids as Hids'. rewrite Forall_forall in Hids'. destruct (Hids' _ Har) as [A _]. pose proof (asc_NoDup _ _ _ A) as ND.
+    pose proof Hids as Hids'. rewrite Forall_forall in Hids'. destruct (Hids' _ Har) as [A _]. pose proof (proj1 A) as ND.
     assert (Did : d_id d = id) by reflexivity. rewrite Did.
     set (cond := negb (mem id (ids_of (last ann dar))) && forallb (fun s => negb (tleb (d_start s) (Fin (d_end d)))) (successors G id)).
     match goal with |- ?l = _ => set (lhs := l) end.
@@ -802,7 +952,7 @@ Section Raw.
           destruct (chain_split _ _ _ ar t C') as (_ & O & _); [apply in_or_app; right; now left|auto|]. now apply tlt_neq1. }
       rewrite (Nil (or_introl K)). destruct Q as [|nx Q']; auto. destruct (Hstep P ar nx Q' E) as (next & rb & -> & _ & Kr).
       cbn [annotate ar_ev]. destruct (r_ev (fst rb)) eqn:Eev; auto.
-      destruct Kr as (Kev & _). rewrite Eev in Kev. destruct Kev as [_ Kk].
+      destruct Kr as (Kev & _). rewrite Eev in Kev. cbn [ev_okr ev_ok] in Kev. destruct Kev as [_ Kk].
       destruct (Nat.eqb id (nth1 k (ids_of ar))) eqn:Eq; auto. apply Nat.eqb_eq in Eq. apply mem_false in Min. exfalso. apply Min.
       rewrite Eq. apply nth_In. lia. }
     apply mem_In in Min.
@@ -843,7 +993,7 @@ Section Raw.
     fold (ids_of ar) in Stay, Ends.
     destruct (r_ev (fst rb)) as [|props|srcs dst props|k|ord] eqn:Eev; cbn [ev_ids] in Stay, Ends.
     - (* new era: the deme ends here and its successor starts here *)
-      destruct Ends as [Ed Ms]. { intros K. apply in_seq in K. apply (asc_In _ _ _ _ An) in Min. lia. }
+      destruct Ends as [Ed Ms]. { intros K. apply in_seq in K. apply (proj2 An) in Min. lia. }
       apply Nil. right. unfold cond. apply andb_false_intro2.
       set (b := mkBirth (Fin (snd rb + r_T (fst rb))%num) [id]).
       assert (Hb : In b births).
@@ -859,7 +1009,7 @@ Section Raw.
       rewrite Enx in Ea. unfold a_of in Ea. cbn [annotate ar_stage sg_a] in Ea. rewrite Ea in K. rewrite tleb_refl in K. discriminate.
     - apply Stay. apply in_or_app. now left.
     - now apply Stay.
-    - destruct Kev as [K2 Kk]. unfold nth1. destruct (Nat.eqb id (nth (k - 1) (ids_of ar) 0%nat)) eqn:Eq.
+    - cbn [ev_okr ev_ok] in Kev. destruct Kev as [K2 Kk]. unfold nth1. destruct (Nat.eqb id (nth (k - 1) (ids_of ar) 0%nat)) eqn:Eq.
       + apply Nat.eqb_eq in Eq. destruct Ends as [Ed Ms]. { rewrite Eq. apply remove_nth_self; auto. lia. }
         change (mem id (ids_of (last ann dar)) = false) in Ms.
         assert (Cd : cond = true).
@@ -885,7 +1035,7 @@ Section Raw.
                rewrite Forall_forall in Hg. apply (Hg _ Hb). exact Ma. }
         unfold lhs. rewrite Cd. cbn [filter fst]. rewrite Ed, teqb_refl. reflexivity.
       + apply Nat.eqb_neq in Eq. apply Stay. now apply remove_nth_other.
-    - destruct Kev.
+    - cbn [ev_okr] in Kev. apply Stay. destruct (reorder_ids_spec _ _ Kev ND) as (_ & _ & Sp). now apply Sp.
   Qed.
 
   Lemma flat_map_single (x n' : nat) : (x < n')%nat ->
@@ -906,10 +1056,10 @@ Section Raw.
     unfold marg_one, marg_expected. destruct Q as [|nx Q']; [apply flat_map_nil; auto|].
     destruct (ar_ev nx) eqn:Eev; try (apply flat_map_nil; auto; fail).
     destruct (Hstep P ar nx Q' E) as (next & rb & Enx & An & Kr). rewrite Enx in Eev. cbn [annotate ar_ev] in Eev.
-    destruct Kr as (Kev & _). rewrite Eev in Kev. destruct Kev as [_ Kk].
+    destruct Kr as (Kev & _). rewrite Eev in Kev. cbn [ev_okr ev_ok] in Kev. destruct Kev as [_ Kk].
     apply flat_map_single. assert (Har : In ar ann) by (rewrite E; apply in_or_app; right; now left).
     pose proof Hids as Hids'. rewrite Forall_forall in Hids'. destruct (Hids' _ Har) as [A _].
-    assert (Hin : In (nth1 k (ids_of ar)) (ids_of ar)) by (apply nth_In; lia). apply (asc_In _ _ _ _ A) in Hin. lia.
+    assert (Hin : In (nth1 k (ids_of ar)) (ids_of ar)) by (apply nth_In; lia). apply (proj2 A) in Hin. lia.
   Qed.
 End Raw.
 
@@ -955,7 +1105,7 @@ Lemma scan_ids_ok l : forall next ids d, asc 0 ids next -> length ids = d -> (1 
 Proof.
   induction l as [|rb l IH]; intros next ids d A L Ld K; [constructor|]. destruct K as [K1 K2]. cbn [map fst] in *.
   destruct K1 as (Kev & K5 & KT & Ks & Km & Kc). subst d.
-  pose proof (ev_ids_asc next ids _ A Kev) as A'. pose proof (ev_ids_len next ids _ Kev) as L'.
+  pose proof (ev_ids_asc next ids _ A Kev) as A'. pose proof (ev_ids_len next ids _ (ev_ok_okr _ _ Kev)) as L'.
   pose proof (ev_dim_pos _ _ Ld Kev) as Ld'.
   cbn [scan scan_end]. rewrite annotate_next. change (sg_ids (ar_stage (annotate next ids rb))) with (ev_ids next ids (r_ev (fst rb))).
   constructor.
@@ -975,14 +1125,55 @@ Proof.
   induction l as [|rb l IH]; intros next ids d prev Ep A L K P ar nx Q E.
   - exfalso. destruct P as [|p [|q P]]; discriminate.
   - pose proof K as K0. destruct K as [K1 K2]. cbn [map fst] in *. pose proof K1 as Kr. destruct K1 as (Kev & K1). subst d.
-    pose proof (ev_ids_asc next ids _ A Kev) as A'. pose proof (ev_ids_len next ids _ Kev) as L'.
+    pose proof (ev_ids_asc next ids _ A Kev) as A'. pose proof (ev_ids_len next ids _ (ev_ok_okr _ _ Kev)) as L'.
     cbn [scan] in E. rewrite annotate_next in E. change (sg_ids (ar_stage (annotate next ids rb))) with (ev_ids next ids (r_ev (fst rb))) in E.
     destruct P as [|p P].
     + cbn [app] in E. injection E as <- <- <-. rewrite Ep. split; [eauto|].
       intros id Hin Hni. rewrite annotate_ids in Hni.
       pose proof (asc_In _ _ _ _ A Hin) as B. pose proof (ev_next_ge next ids (r_ev (fst rb))).
-      eapply Forall_impl; [|eapply (scan_dead l _ _ _ id A' L' K2); [lia|exact Hni]]. cbn beta. tauto.
+      eapply Forall_impl; [|eapply (scan_dead l _ _ _ id (asc_okids _ _ A') L' (lok_lokr _ _ K2)); [lia|exact Hni]]. cbn beta. tauto.
     + cbn [app] in E. injection E as <- E. eapply (IH _ _ _ (annotate next ids rb)); eauto.
+Qed.
+
+
+Lemma ev_dim_pos_r d (e : sev R) : (1 <= d)%nat -> ev_okr d e -> (1 <= ev_dim d e)%nat.
+Proof. intros L K. destruct e; cbn in *; try lia. Qed.
+
+Lemma scan_ids_okr l : forall next ids d, okids ids next -> length ids = d -> (1 <= d)%nat -> lokr d l ->
+  Forall (fun ar => okids (ids_of ar) (fst (scan_end next ids l)) /\ ids_of ar <> [] /\ stage_dims ar) (scan next ids l).
+Proof.
+  induction l as [|rb l IH]; intros next ids d A L Ld K; [constructor|]. destruct K as [K1 K2]. cbn [map fst] in *.
+  destruct K1 as (Kev & K5 & KT & Ks & Km & Kc). subst d.
+  pose proof (ev_ids_okids next ids _ A Kev) as A'. pose proof (ev_ids_len next ids _ Kev) as L'.
+  pose proof (ev_dim_pos_r _ _ Ld Kev) as Ld'.
+  cbn [scan scan_end]. rewrite annotate_next. change (sg_ids (ar_stage (annotate next ids rb))) with (ev_ids next ids (r_ev (fst rb))).
+  constructor.
+  - rewrite annotate_ids. split; [|split].
+    + destruct A' as [N' B']. split; auto. intros x Hx. apply B' in Hx.
+      pose proof (scan_end_ge l (ev_next next ids (r_ev (fst rb))) (ev_ids next ids (r_ev (fst rb)))). lia.
+    + intros E. rewrite E in L'. cbn in L'. lia.
+    + unfold stage_dims. rewrite annotate_ids. cbn [annotate ar_stage sg_sizes sg_mig]. rewrite map_length, L'. repeat split; auto; lia.
+  - eapply IH; eauto; try (rewrite L'; exact Ld').
+Qed.
+
+Lemma scan_step_r l : forall next ids d prev, ids_of prev = ids -> ar_next prev = next -> okids ids next -> length ids = d -> lokr d l ->
+  forall P ar nx Q, prev :: scan next ids l = P ++ ar :: nx :: Q ->
+  (exists next' rb, nx = annotate next' (ids_of ar) rb /\ okids (ids_of ar) next' /\ round_okr (length (ids_of ar)) (fst rb)
+                    /\ next' = ar_next ar)
+  /\ (forall id, In id (ids_of ar) -> ~ In id (ids_of nx) ->
+       Forall (fun y => Forall (fun b => ~ In id (b_anc b)) (ar_births y)) Q).
+Proof.
+  induction l as [|rb l IH]; intros next ids d prev Ep En A L K P ar nx Q E.
+  - exfalso. destruct P as [|p [|q P]]; discriminate.
+  - pose proof K as K0. destruct K as [K1 K2]. cbn [map fst] in *. pose proof K1 as Kr. destruct K1 as (Kev & K1). subst d.
+    pose proof (ev_ids_okids next ids _ A Kev) as A'. pose proof (ev_ids_len next ids _ Kev) as L'.
+    cbn [scan] in E. rewrite annotate_next in E. change (sg_ids (ar_stage (annotate next ids rb))) with (ev_ids next ids (r_ev (fst rb))) in E.
+    destruct P as [|p P].
+    + cbn [app] in E. injection E as <- <- <-. rewrite Ep. split; [exists next, rb; split; [reflexivity|split; [exact A|split; [exact Kr|symmetry; exact En]]]|].
+      intros id Hin Hni. rewrite annotate_ids in Hni.
+      pose proof (proj2 A _ Hin) as B. pose proof (ev_next_ge next ids (r_ev (fst rb))).
+      eapply Forall_impl; [|eapply (scan_dead l _ _ _ id A' L' K2); [lia|exact Hni]]. cbn beta. tauto.
+    + cbn [app] in E. injection E as <- E. eapply (IH _ _ _ (annotate next ids rb)); eauto; reflexivity.
 Qed.
 
 Section Log.
@@ -1035,3 +1226,77 @@ Section Log.
     exact (proj2 (scan_step (timed (l_rounds lg)) 1 [0%nat] 1 (init_ar lg) eq_refl A eq_refl log_lok P ar nx Q E) id).
   Qed.
 End Log.
+
+(** ** the same for logs with Reorder records *)
+Lemma log_ok_okr (lg : elog R) : log_ok lg -> log_okr lg.
+Proof. apply rounds_ok_okr. Qed.
+
+Section LogR.
+  Variable lg : elog R.
+  Hypothesis Hok : log_okr lg.
+  Let ann := annotated lg.
+
+  Lemma log_lokr : lokr 1 (timed (l_rounds lg)).
+  Proof. unfold lokr. rewrite timed_fst. exact Hok. Qed.
+  Lemma okids0 : okids [0%nat] 1.
+  Proof. apply asc_okids. cbn. lia. Qed.
+
+  Lemma log_life_r id : (id < n_demes lg)%nat -> life (annotated lg) id (b_start (nth id (births_of (annotated lg)) dbirth)).
+  Proof.
+    intros Hid. unfold n_demes, births_of, annotated in *. cbn [flat_map init_ar ar_births app length] in *.
+    destruct id as [|id].
+    - destruct (scan_alive (timed (l_rounds lg)) 1 [0%nat] 1 0%nat okids0 eq_refl log_lokr) as (A2 & A3 & E1 & F2 & F3); [now left|].
+      exists [], (init_ar lg :: A2), A3. rewrite E1. repeat split; auto; try discriminate.
+    - rewrite scan_births_len in Hid.
+      destruct (scan_born (timed (l_rounds lg)) 1 [0%nat] 1 (S id) okids0 eq_refl log_lokr) as (A1 & A2 & A3 & E1 & N2 & F1 & F2 & F3 & Es); [lia|].
+      exists (init_ar lg :: A1), A2, A3. rewrite E1. repeat split; auto.
+      cbn [nth]. replace (S id - 1)%nat with id in Es by lia. rewrite <- E1. exact Es.
+  Qed.
+
+  Lemma log_chain_r : achain Inf (annotated lg).
+  Proof.
+    unfold annotated. cbn [achain]. split; [reflexivity|]. split; [reflexivity|].
+    unfold b_of. cbn [init_ar ar_stage sg_b]. eapply scan_chain; [apply timed_chain|]. exact log_lokr.
+  Qed.
+
+  Lemma log_facts_r :
+    Forall (fun ar => Forall (fun b => b_start b = a_of ar) (ar_births ar)) ann
+    /\ Forall (fun ar => okids (ids_of ar) (n_demes lg) /\ ids_of ar <> []) ann
+    /\ Forall (fun ar => Forall (fun p => Fin (p_time p) = a_of ar) (ar_pulses ar)) ann
+    /\ Forall (fun ar => Forall (fun te => Fin (fst te) = a_of ar) (ar_evs ar)) ann
+    /\ Forall (fun ar => exists K, (K < 5)%nat /\ Forall (fun te => ev_kind te = K) (ar_evs ar)) ann
+    /\ Forall stage_dims ann.
+  Proof.
+    destruct (scan_starts (timed (l_rounds lg)) 1 [0%nat]) as (I1 & I2 & I3 & I4).
+    pose proof (scan_ids_okr (timed (l_rounds lg)) 1 [0%nat] 1 okids0 eq_refl (le_n 1) log_lokr) as I5.
+    assert (En : n_demes lg = fst (scan_end 1 [0%nat] (timed (l_rounds lg)))).
+    { unfold n_demes, births_of, annotated. cbn [flat_map init_ar ar_births app length]. rewrite scan_births_len.
+      pose proof (scan_end_ge (timed (l_rounds lg)) 1 [0%nat]). lia. }
+    rewrite <- En in I5.
+    unfold ann, annotated. repeat split; constructor; auto.
+    - repeat constructor.
+    - split; [|discriminate]. unfold ids_of. cbn [init_ar ar_stage sg_ids]. split; [repeat constructor; intros []|].
+      intros x [<-|[]]. rewrite En. pose proof (scan_end_ge (timed (l_rounds lg)) 1 [0%nat]). lia.
+    - eapply Forall_impl; [|exact I5]. cbn beta. tauto.
+    - constructor.
+    - constructor.
+    - exists 0%nat. split; [lia|constructor].
+    - unfold stage_dims. cbn. lia.
+    - eapply Forall_impl; [|exact I5]. cbn beta. tauto.
+  Qed.
+
+  Lemma log_step_next P ar nx Q : ann = P ++ ar :: nx :: Q ->
+    exists next rb, nx = annotate next (ids_of ar) rb /\ okids (ids_of ar) next /\ round_okr (length (ids_of ar)) (fst rb)
+                    /\ next = ar_next ar.
+  Proof.
+    intros E. exact (proj1 (scan_step_r (timed (l_rounds lg)) 1 [0%nat] 1 (init_ar lg) eq_refl eq_refl okids0 eq_refl log_lokr P ar nx Q E)).
+  Qed.
+  Lemma log_step_r P ar nx Q : ann = P ++ ar :: nx :: Q ->
+    exists next rb, nx = annotate next (ids_of ar) rb /\ okids (ids_of ar) next /\ round_okr (length (ids_of ar)) (fst rb).
+  Proof. intros E. destruct (log_step_next P ar nx Q E) as (next & rb & E1 & E2 & E3 & _). eauto. Qed.
+  Lemma log_gone_r P ar nx Q id : ann = P ++ ar :: nx :: Q -> In id (ids_of ar) -> ~ In id (ids_of nx) ->
+    Forall (fun y => Forall (fun b => ~ In id (b_anc b)) (ar_births y)) Q.
+  Proof.
+    intros E. exact (proj2 (scan_step_r (timed (l_rounds lg)) 1 [0%nat] 1 (init_ar lg) eq_refl eq_refl okids0 eq_refl log_lokr P ar nx Q E) id).
+  Qed.
+End LogR.
